@@ -27,9 +27,9 @@ FILES = {"object.py": "src/vector/backends/object.py", "numpy.py": "src/vector/b
          "sympy.py": "src/vector/backends/sympy.py", "_numba_object.py": "src/vector/backends/_numba_object.py"}
 CHECKS = {"object.py": ["C04", "C05", "C06", "C11", "C12", "C14", "C15", "C16", "C19", "C20"],
           "numpy.py": ["C03", "C04", "C05", "C06", "C11", "C12", "C14", "C16", "C17", "C19", "C20"],
-          "awkward.py": ["C03", "C04", "C05", "C11", "C12", "C14", "C16", "C17", "C18", "C20"],
+          "awkward.py": ["C03", "C04", "C05", "C11", "C12", "C14", "C16", "C17", "C18", "C20", "C07"],
           "awkward_constructors.py": ["C06", "C03", "C18", "C20", "C14"],
-          "_methods.py": ["C04", "C05", "C14", "C15", "C03", "C12", "C09", "C10", "C01"],
+          "_methods.py": ["C04", "C05", "C14", "C15", "C03", "C12", "C09", "C10", "C01", "C18"],
           "sympy.py": ["C08"], "_numba_object.py": ["C07"]}
 FAMILIES = [["2D", "3D", "4D"], ["XY", "RhoPhi"], ["Z", "Theta", "Eta"], ["T", "Tau"], ["x", "y"], ["rho", "phi"], ["z", "theta", "eta"], ["t", "tau"],
             ["px", "py"], ["pt", "phi"], ["pz", "theta", "eta"], ["E", "e", "energy", "M", "m", "mass"], ["Azimuthal", "Longitudinal", "Temporal"],
